@@ -3,6 +3,7 @@ import TF.Drv.Proto
 import TF.Model.Merkle
 import TF.Spec.Merkle
 import TF.Model.HashTip5
+import TF.Gen.MerkleLoops
 /-!
 driver handlers for the families `mt` (C04: inclusion proofs, accessors) and `mtb` (C10: construction).
 Digests are lists of five canonical values, the hash is the executable Tip5 instance `TF.Hash.hashPair`.
@@ -133,7 +134,20 @@ def mtb : Handler
   | "build_env", [c, _threads, ds] => do   -- threads: `<n>` or `t<n>m<hex affinity mask>`
     let ds ← Arg.digests? ds
     let cutoff := cutoffOfEnv (cutoffArg c)
-    pure (match fromDigestsFuel Hh filler cutoff (ds.length + 1) ds with
+    let m := fromDigestsFuel Hh filler cutoff (ds.length + 1) ds
+    -- `from_digests` **regenerated from source** (TF/Gen/MerkleLoops.lean, tools/rs2lean_bt4.py) evaluated next to the hand
+    -- model with the same cut-off: node vector, error kind, panic (`_ok` flag) and non-termination must agree
+    let g := TF.Gen.Loops.merkle_from_digests Hh [] filler cutoff ds
+    let gok := TF.Gen.Loops.merkle_from_digests_ok Hh [] filler cutoff ds
+    let agree := match m, g with
+      | none, none => true
+      | some .panic, _ => !gok
+      | some (.ok t), some (.ok nodes) => gok && t.nodes == nodes
+      | some (.err .tooFewLeafs), some (.error e) => gok && e == "TooFewLeafs"
+      | some (.err .incorrectNumberOfLeafs), some (.error e) => gok && e == "IncorrectNumberOfLeafs"
+      | _, _ => false
+    if !agree then pure "GEN-MISMATCH from_digests" else
+    pure (match m with
       | none => "timeout"
       | some (.ok t) => treeReply t ds
       | some (.err _) => "err"
